@@ -11,7 +11,7 @@ open Wac Wac.Spec
 /-- the target of a nested merge -/
 structure NState (W : Colls) (types : Types) (S : Nat → Prop) (e : Nat) (s : AggState) (F : Forest) : Prop where
   ni : NI W types S s
-  nested : s.cfg.nestedMerge = true
+  nested : s.cfg.nestedMerge = true ∧ s.cfg.typeMerge = true
   mutE : S e
   itf : ∃ ti, s.agg.types.interfaces[e]? = some ti ∧ ∃ n, unfoldItems (s.agg.types.unfoldKind n) ti.exports = some F
   nd : F.namesDistinct = true
@@ -104,10 +104,60 @@ theorem amInsert_mem {β : Type} : ∀ (E : List (Str × β)) (n : Str) (k : β)
 
 /-! ### kinds that cannot be related -/
 
-/-- a leaf kind against an instance kind: the checker answers with a mismatch and changes nothing -/
+/-- the pairs of kinds on which `is_subtype_` falls through to its `mismatch` arm -/
+def innerFalls : ItemKind → ItemKind → Bool
+  | .type ta, .type tb =>
+    match ta, tb with
+    | .resource _, .resource _ => false
+    | .func _, .func _ => false
+    | .value _, .value _ => false
+    | .interface _, .interface _ => false
+    | .world _, .world _ => false
+    | .module _, .module _ => false
+    | _, _ => true
+  | .func _, .func _ => false
+  | .instance _, .instance _ => false
+  | .component _, .component _ => false
+  | .module _, .module _ => false
+  | .value _, .value _ => false
+  | _, _ => true
+
+theorem inner_mismatch (fwd bwd : Checker → ItemKind → ItemKind → R × Checker) (n : Nat) (c : Checker)
+    (at_ : Types) (a : ItemKind) (bt : Types) (b : ItemKind) (h : innerFalls a b = true) :
+    ∃ m, isSubtypeInner fwd bwd n c at_ a bt b = (.err m, c) := by
+  have hmis : ∀ (v : Variance) (x y : String), ∃ m, (mismatch v x y, c) = (R.err m, c) := by
+    intro v x y; cases v <;> exact ⟨_, rfl⟩
+  cases a with
+  | type ta =>
+    cases b with
+    | type tb =>
+      cases ta <;> cases tb <;> first
+        | (simp [innerFalls] at h; done)
+        | (simp only [isSubtypeInner]; exact hmis _ _ _)
+    | _ =>
+      cases ta <;> (simp only [isSubtypeInner]; exact hmis _ _ _)
+  | _ =>
+    cases b <;> first
+      | (simp [innerFalls] at h; done)
+      | (simp only [isSubtypeInner]; exact hmis _ _ _)
+
+theorem innerFalls_leaf_wrap {a : ItemKind} (la : LeafK a) (w : Bool) (t : Nat) : innerFalls a (wrapK w t) = true := by
+  cases a with
+  | type ty => cases ty <;> first | (cases w <;> rfl) | cases la
+  | _ => first | (cases w <;> rfl) | cases la
+
+theorem innerFalls_wrap_leaf {b : ItemKind} (lb : LeafK b) (w : Bool) (t : Nat) : innerFalls (wrapK w t) b = true := by
+  cases b with
+  | type ty => cases ty <;> first | (cases w <;> rfl) | cases lb
+  | _ => first | (cases w <;> rfl) | cases lb
+
+theorem innerFalls_wrap_ne (w : Bool) (t t' : Nat) : innerFalls (wrapK w t) (wrapK (!w) t') = true := by
+  cases w <;> rfl
+
+/-- two kinds that `is_subtype_` cannot relate, one of them not a leaf kind: the checker answers
+with a mismatch and changes nothing -/
 theorem chk_mismatch {W : Colls} {T : Types} (s : AggState) (hc : CInv W T s.chk.cache)
-    (at_ bt : Types) (a b : ItemKind)
-    (hab : (LeafK a ∧ ∃ t, b = .instance t) ∨ ((∃ t, a = .instance t) ∧ LeafK b)) :
+    (at_ bt : Types) (a b : ItemKind) (hf : innerFalls a b = true) (hnl : ¬ LeafK a ∨ ¬ LeafK b) :
     (∃ m, chkSubtype at_ a bt b s = .ok (.err m, s)) ∧ ∃ m, chkSubtypeQ at_ a bt b s = .error (.err m) := by
   have hfuel : ∃ n, checkFuel at_ bt = n + 1 := ⟨checkFuel at_ bt - 1, by simp only [checkFuel, Types.fuel]; omega⟩
   obtain ⟨n, hn⟩ := hfuel
@@ -116,31 +166,11 @@ theorem chk_mismatch {W : Colls} {T : Types} (s : AggState) (hc : CInv W T s.chk
     intro hcon
     have hmem : (GKind.mk' at_ a, GKind.mk' bt b) ∈ s.chk.cache := by simpa using hcon
     obtain ⟨⟨l1, _⟩, ⟨l2, _⟩⟩ := hc.keys _ hmem
-    rcases hab with ⟨_, t, rfl⟩ | ⟨⟨t, rfl⟩, _⟩
-    · exact l2
-    · exact l1
-  have hmis : ∀ (v : Variance) (x y : String), ∃ m, mismatch v x y = R.err m := by
-    intro v x y; cases v <;> exact ⟨_, rfl⟩
-  have hinner : ∃ m, isSubtypeInner (fun c x y => isSubtype n c at_ x bt y) (fun c y x => isSubtype n c bt y at_ x)
-      n s.chk at_ a bt b = (.err m, s.chk) := by
-    rcases hab with ⟨la, t, rfl⟩ | ⟨⟨t, rfl⟩, lb⟩
-    · cases a with
-      | func f =>
-        obtain ⟨m, hm⟩ := hmis s.chk.kind (at_.descKind (.func f)) (bt.descKind (.instance t))
-        exact ⟨m, by simp only [isSubtypeInner, hm]⟩
-      | value v =>
-        obtain ⟨m, hm⟩ := hmis s.chk.kind (at_.descKind (.value v)) (bt.descKind (.instance t))
-        exact ⟨m, by simp only [isSubtypeInner, hm]⟩
-      | _ => cases la
-    · cases b with
-      | func f =>
-        obtain ⟨m, hm⟩ := hmis s.chk.kind (at_.descKind (.instance t)) (bt.descKind (.func f))
-        exact ⟨m, by simp only [isSubtypeInner, hm]⟩
-      | value v =>
-        obtain ⟨m, hm⟩ := hmis s.chk.kind (at_.descKind (.instance t)) (bt.descKind (.value v))
-        exact ⟨m, by simp only [isSubtypeInner, hm]⟩
-      | _ => cases lb
-  obtain ⟨m, hm⟩ := hinner
+    rcases hnl with h | h
+    · exact h l1
+    · exact h l2
+  obtain ⟨m, hm⟩ := inner_mismatch (fun c x y => isSubtype n c at_ x bt y) (fun c y x => isSubtype n c bt y at_ x)
+    n s.chk at_ a bt b hf
   have hsub : isSubtype (checkFuel at_ bt) s.chk at_ a bt b = (.err m, s.chk) := by
     rw [hn]
     simp only [isSubtype, hmiss, Bool.false_eq_true, ↓reduceIte, hm]
@@ -217,7 +247,7 @@ theorem ni_setExports {s : AggState} (hI : NI W types S s) (he : S e) {ti : Inte
   have hTeq := setExports_types_eq s e E' ti hti
   have hlen : (setExports s e E').agg.types.interfaces.length = s.agg.types.interfaces.length := by
     rw [hTeq]; simp [listSet_length]
-  refine ⟨hI.ainv.of_same hfr.ext (by rw [hTeq]) rfl rfl, ?_, ?_, ?_⟩
+  refine ⟨hI.ainv.of_same hfr.ext (by rw [hTeq]) rfl rfl, ?_, ?_, ?_, hI.ish⟩
   · intro j itf hj x hx
     by_cases hje : j = e
     · subst hje
@@ -231,7 +261,7 @@ theorem ni_setExports {s : AggState} (hI : NI W types S s) (he : S e) {ti : Inte
   · intro j hj; rw [hlen]; exact hI.sb j hj
   · intro i i' hg
     obtain ⟨a, b, c⟩ := hI.ik i i' hg
-    exact ⟨a, by rw [hlen]; exact b, fun t ht => (c t ht).frame hI.iwf hfr (.inr ⟨i', rfl, a, b⟩)⟩
+    exact ⟨a, by rw [hlen]; exact b, fun t ht => (c t ht).frame hI.iwf hfr (.inr ⟨false, i', rfl, a, b⟩)⟩
 
 /-- the export is new: it is copied (with everything nested in it) and appended -/
 theorem nstate_append {s0 s2 : AggState} {F0 : Forest} (hT : NState W types S e s0 F0) {ti : Interface}
@@ -257,7 +287,7 @@ theorem nstate_append {s0 s2 : AggState} {F0 : Forest} (hT : NState W types S e 
     · exact hp.1
   have hI3 := ni_setExports hI2 hT.mutE hti2 _ hE'
   refine ⟨(hst.toNStep e).trans (setExports_mstep _ s2 e _).toNStep, hhas, hI3, ?_, hT.mutE, ?_, hasName_of_nd_snoc F0 n ts hT.nd htsnd hhas⟩
-  · show s2.cfg.nestedMerge = true
+  · show s2.cfg.nestedMerge = true ∧ s2.cfg.typeMerge = true
     rw [hst.cfg]; exact hT.nested
   · refine ⟨{ ti with exports := amInsert ti.exports n k' }, ?_, ?_⟩
     · rw [setExports_types_eq s2 e _ ti hti2]
@@ -275,11 +305,11 @@ theorem nstate_append {s0 s2 : AggState} {F0 : Forest} (hT : NState W types S e 
 
 /-- weakening the set of mutable interfaces -/
 theorem NI.weaken {S' : Nat → Prop} {s : AggState} (h : NI W types S' s) (hS : ∀ j, S j → S' j) : NI W types S s := by
-  refine ⟨h.ainv, ?_, fun j hj => h.sb j (hS j hj), ?_⟩
+  refine ⟨h.ainv, ?_, fun j hj => h.sb j (hS j hj), ?_, h.ish⟩
   · intro j itf hj x hx
-    rcases h.iwf j itf hj x hx with h1 | ⟨t, h1, h2, h3⟩
+    rcases h.iwf j itf hj x hx with h1 | ⟨b, t, h1, h2, h3⟩
     · exact .inl h1
-    · exact .inr ⟨t, h1, fun hc => h2 (hS t hc), h3⟩
+    · exact .inr ⟨b, t, h1, fun hc => h2 (hS t hc), h3⟩
   · intro i i' hg
     obtain ⟨a, b, c⟩ := h.ik i i' hg
     exact ⟨fun hc => a (hS i' hc), b, c⟩
@@ -303,10 +333,27 @@ theorem nstate_keep {s0 : AggState} {F0 : Forest} (hT : NState W types S e s0 F0
   have htf : tf = ts := heq tf hFn
   subst htf
   refine ⟨hms.toNStep, tf, hFn, ?_, ?_⟩
-  · have hk : isEqKind tf = true := eqKind_unfoldLeaf lk hts
-    rw [meet_eqKind tf tf hk]; simp
+  · have hk : isEqK tf = true := eqKind_unfoldLeaf lk hts
+    rw [meet_eqK tf tf hk]; simp
   · rw [setF_self F0 n tf hFn]
-    refine ⟨⟨hA, hT.ni.iwf, hT.ni.sb, ?_⟩, hT.nested, hT.mutE, ⟨ti, hti, m, hm⟩, hT.nd⟩
+    have hkey : ∀ i ty, alGet (keepState s0 c' (GTy.mk' types sk.ty) tk.ty).agg.remapped (GTy.mk' types (.interface i)) = some ty →
+        alGet s0.agg.remapped (GTy.mk' types (.interface i)) = some ty := by
+      intro i ty hg
+      simp only [keepState, alGet_alInsert] at hg
+      split at hg
+      · rename_i he
+        have := eq_of_beq he
+        cases sk with
+        | func f => simp [GTy.mk', ItemKind.ty] at this
+        | value v => simp [GTy.mk', ItemKind.ty] at this
+        | type ty =>
+          cases ty with
+          | func f => simp [GTy.mk', ItemKind.ty] at this
+          | value v => simp [GTy.mk', ItemKind.ty] at this
+          | _ => cases lk
+        | _ => cases lk
+      · exact hg
+    refine ⟨⟨hA, hT.ni.iwf, hT.ni.sb, ?_, fun i ty hg => hT.ni.ish i ty (hkey i ty hg)⟩, hT.nested, hT.mutE, ⟨ti, hti, m, hm⟩, hT.nd⟩
     intro i i' hg
     apply hT.ni.ik i i'
     simp only [keepState, alGet_alInsert] at hg
@@ -316,6 +363,11 @@ theorem nstate_keep {s0 : AggState} {F0 : Forest} (hT : NState W types S e s0 F0
       cases sk with
       | func f => simp [GTy.mk', ItemKind.ty] at this
       | value v => simp [GTy.mk', ItemKind.ty] at this
+      | type ty =>
+        cases ty with
+        | func f => simp [GTy.mk', ItemKind.ty] at this
+        | value v => simp [GTy.mk', ItemKind.ty] at this
+        | _ => cases lk
       | _ => cases lk
     · exact hg
 
@@ -331,12 +383,11 @@ def MergeSpec (W : Colls) (types : Types) (fuel : Nat) : Prop :=
 def pushIface (s : AggState) (copy : Interface) : AggState :=
   { s with agg := { s.agg with types := { s.agg.types with interfaces := s.agg.types.interfaces ++ [copy] } } }
 
-theorem source_instance {i : Nat} {ts : Tree} (hts : types.unfoldKind types.fuel (.instance i) = some ts) :
-    ∃ G, ts = .instance G ∧ ∀ si, types.interfaces[i]? = some si →
+theorem source_instance {w : Bool} {i : Nat} {ts : Tree} (hts : types.unfoldKind types.fuel (wrapK w i) = some ts) :
+    ∃ G, ts = wrapT w (.instance G) ∧ ∀ si, types.interfaces[i]? = some si →
       unfoldItems (types.unfoldKind types.fuel) si.exports = some G := by
   have hf : types.fuel = (types.fuel - 1) + 1 := by simp only [Types.fuel]; omega
-  rw [hf] at hts
-  simp only [Types.unfoldKind] at hts
+  rw [hf, unfoldKind_wrapK] at hts
   cases hi : types.interfaces[i]? with
   | none => simp [hi] at hts
   | some si =>
@@ -349,34 +400,35 @@ theorem source_instance {i : Nat} {ts : Tree} (hts : types.unfoldKind types.fuel
 /-- the export exists and both kinds are instances: the nested instance is merged on a copy -/
 theorem nstate_nested {fuel : Nat} (hIH : MergeSpec W types fuel) {s0 s2 : AggState} {F0 : Forest}
     (hT : NState W types S e s0 F0) {ti : Interface} (hti : s0.agg.types.interfaces[e]? = some ti)
-    {n : Str} {t sid : Nat} (hsome : amGet ti.exports n = some (.instance t)) {d : Nat} (hsrc : SrcOK types d sid)
-    {ts : Tree} (hts : types.unfoldKind types.fuel (.instance sid) = some ts) (htsnd : ts.namesDistinct = true)
+    {n : Str} {w : Bool} {t sid : Nat} (hsome : amGet ti.exports n = some (wrapK w t)) {d : Nat} (hsrc : SrcOK types d sid)
+    {ts : Tree} (hts : types.unfoldKind types.fuel (wrapK w sid) = some ts) (htsnd : ts.namesDistinct = true)
     {copy : Interface} (hcopy : s0.agg.types.interfaces[t]? = some copy)
     (hmerge : mergeInterface fuel s0.agg.types.interfaces.length types sid (pushIface s0 copy) = .ok ((), s2)) :
-    NStep types.uid e s0 (insExport s2 e n (.instance s0.agg.types.interfaces.length)) ∧
+    NStep types.uid e s0 (insExport s2 e n (wrapK w s0.agg.types.interfaces.length)) ∧
       ∃ tf r, F0.get n = some tf ∧ meet tf ts = some r ∧
-        NState W types S e (insExport s2 e n (.instance s0.agg.types.interfaces.length)) (setF F0 n r) := by
+        NState W types S e (insExport s2 e n (wrapK w s0.agg.types.interfaces.length)) (setF F0 n r) := by
   obtain ⟨ti', hti', m, hm⟩ := hT.itf
   rw [hti] at hti'; cases hti'
-  have hmem : (n, ItemKind.instance t) ∈ ti.exports := alGet_mem _ _ _ (by rw [← amGet_eq_alGet]; exact hsome)
+  have hmem : (n, wrapK w t) ∈ ti.exports := alGet_mem _ _ _ (by rw [← amGet_eq_alGet]; exact hsome)
   obtain ⟨tf, htf, hFn⟩ := (unfoldItems_get ti.exports F0 n hm).2 _ (by rw [← amGet_eq_alGet]; exact hsome)
   have htfnd : tf.namesDistinct = true := Forest.nd_get F0 n tf hT.nd hFn
   -- the nested target interface is frozen
   have hfz : ¬ S t ∧ t < s0.agg.types.interfaces.length := by
-    rcases hT.ni.iwf e ti hti _ hmem with h | ⟨t', h1, h2, h3⟩
-    · cases h
-    · cases h1; exact ⟨h2, h3⟩
+    rcases hT.ni.iwf e ti hti _ hmem with h | ⟨w', t', h1, h2, h3⟩
+    · exact absurd h (wrapK_not_leaf w t)
+    · obtain ⟨_, rfl⟩ := wrapK_inj h1; exact ⟨h2, h3⟩
   -- its forest
   obtain ⟨m', rfl⟩ : ∃ m', m = m' + 1 := by
     cases m with
     | zero => simp [Types.unfoldKind] at htf
     | succ m' => exact ⟨m', rfl⟩
-  simp only [Types.unfoldKind, hcopy] at htf
+  rw [unfoldKind_wrapK] at htf
+  simp only [hcopy] at htf
   obtain ⟨Ft, hFt, rfl⟩ := Option.map_eq_some_iff.1 htf
-  have hFtnd : Ft.namesDistinct = true := by simpa [Tree.namesDistinct] using htfnd
+  have hFtnd : Ft.namesDistinct = true := by simpa [nd_wrapT, Tree.namesDistinct] using htfnd
   -- the source forest
   obtain ⟨Gs, rfl, hGs⟩ := source_instance hts
-  have hGsnd : Gs.namesDistinct = true := by simpa [Tree.namesDistinct] using htsnd
+  have hGsnd : Gs.namesDistinct = true := by simpa [nd_wrapT, Tree.namesDistinct] using htsnd
   -- the state with the copy
   let L := s0.agg.types.interfaces.length
   let S' : Nat → Prop := fun j => S j ∨ j = L
@@ -385,14 +437,14 @@ theorem nstate_nested {fuel : Nat} (hIH : MergeSpec W types fuel) {s0 s2 : AggSt
   have hfrP : ∀ S0 : Nat → Prop, Frame S0 s0.agg.types (pushIface s0 copy).agg.types := fun S0 =>
     ⟨hextP, by simp [pushIface], fun j hj _ => by simp [pushIface, List.getElem?_append_left hj]⟩
   have hfzS' : ∀ k, FrozenK s0.agg.types S k → FrozenK (pushIface s0 copy).agg.types S' k := by
-    rintro k (h | ⟨t', rfl, h2, h3⟩)
+    rintro k (h | ⟨w', t', rfl, h2, h3⟩)
     · exact .inl h
-    · refine .inr ⟨t', rfl, ?_, by simp [pushIface]; omega⟩
+    · refine .inr ⟨w', t', rfl, ?_, by simp [pushIface]; omega⟩
       rintro (hc | hc)
       · exact h2 hc
       · exact absurd hc (Nat.ne_of_lt h3)
   have hTP : NState W types S' L (pushIface s0 copy) Ft := by
-    refine ⟨⟨hT.ni.ainv.of_same hextP rfl rfl rfl, ?_, ?_, ?_⟩, hT.nested, .inr rfl, ⟨copy, by simp [pushIface, L], m', ?_⟩, hFtnd⟩
+    refine ⟨⟨hT.ni.ainv.of_same hextP rfl rfl rfl, ?_, ?_, ?_, hT.ni.ish⟩, hT.nested, .inr rfl, ⟨copy, by simp [pushIface, L], m', ?_⟩, hFtnd⟩
     · intro j itf hj x hx
       rcases Nat.lt_or_ge j L with hlt | hge
       · have : s0.agg.types.interfaces[j]? = some itf := by
@@ -410,7 +462,7 @@ theorem nstate_nested {fuel : Nat} (hIH : MergeSpec W types fuel) {s0 s2 : AggSt
       · subst hj; simp [pushIface, L]
     · intro i i' hg
       obtain ⟨a, b, c⟩ := hT.ni.ik i i' hg
-      refine ⟨?_, by simp [pushIface]; omega, fun t0 ht0 => (c t0 ht0).frame hT.ni.iwf (hfrP S) (.inr ⟨i', rfl, a, b⟩)⟩
+      refine ⟨?_, by simp [pushIface]; omega, fun t0 ht0 => (c t0 ht0).frame hT.ni.iwf (hfrP S) (.inr ⟨false, i', rfl, a, b⟩)⟩
       rintro (hc | hc)
       · exact a hc
       · exact absurd hc (Nat.ne_of_lt b)
@@ -432,10 +484,10 @@ theorem nstate_nested {fuel : Nat} (hIH : MergeSpec W types fuel) {s0 s2 : AggSt
     rw [hst2.others j (by simp [pushIface]; omega) (Nat.ne_of_lt hj)]
     simp [pushIface, List.getElem?_append_left hj]
   rw [insExport_eq s2 e n _ ti hti2]
-  have hfr3 := setExports_frame S s2 e (amInsert ti.exports n (.instance L)) hT.mutE
+  have hfr3 := setExports_frame S s2 e (amInsert ti.exports n (wrapK w L)) hT.mutE
   have hold : ∀ x, x ∈ ti.exports → FrozenK s2.agg.types S x.2 := fun x hx => (hT.ni.iwf e ti hti x hx).frame hfr02
-  have hnewF : FrozenK s2.agg.types S (.instance L) := .inr ⟨L, rfl, hnotSL, hLlt⟩
-  have hE' : ∀ x, x ∈ amInsert ti.exports n (.instance L) → FrozenK s2.agg.types S x.2 := by
+  have hnewF : FrozenK s2.agg.types S (wrapK w L) := .inr ⟨w, L, rfl, hnotSL, hLlt⟩
+  have hE' : ∀ x, x ∈ amInsert ti.exports n (wrapK w L) → FrozenK s2.agg.types S x.2 := by
     intro x hx
     rcases amInsert_mem _ _ _ _ hx with h | rfl
     · exact hold x h
@@ -443,11 +495,14 @@ theorem nstate_nested {fuel : Nat} (hIH : MergeSpec W types fuel) {s0 s2 : AggSt
   have hI3 := ni_setExports hI2 hT.mutE hti2 _ hE'
   -- the merged copy unfolds to `R'`
   obtain ⟨ti2, hti2L, k2, hk2⟩ := hT2.itf
-  have hLtree : s2.agg.types.unfoldKind (k2 + 1) (.instance L) = some (.instance R') := by
-    simp only [Types.unfoldKind, hti2L, hk2, Option.map_some]
-  refine ⟨?_, .instance Ft, .instance R', hFn, hmeet, hI3, ?_, hT.mutE, ?_, ?_⟩
+  have hLtree : s2.agg.types.unfoldKind (k2 + 1) (wrapK w L) = some (wrapT w (.instance R')) := by
+    rw [unfoldKind_wrapK]
+    simp only [hti2L, hk2, Option.map_some]
+  have hmeet' : meet (wrapT w (.instance Ft)) (wrapT w (.instance Gs)) = some (wrapT w (.instance R')) := by
+    rw [meet_wrapT, hmeet]; rfl
+  refine ⟨?_, wrapT w (.instance Ft), wrapT w (.instance R'), hFn, hmeet', hI3, ?_, hT.mutE, ?_, ?_⟩
   · -- NStep
-    have hms := setExports_mstep types.uid s2 e (amInsert ti.exports n (.instance L))
+    have hms := setExports_mstep types.uid s2 e (amInsert ti.exports n (wrapK w L))
     refine ⟨(hextP.trans hst2.ext).trans hms.ext, ?_, ?_, hms.worlds.trans hst2.worlds, hms.modules.trans hst2.modules,
       hms.cfg.trans hst2.cfg, hms.imports.trans hst2.imports, hms.imap.trans hst2.imap, hms.redirects.trans hst2.redirects, ?_⟩
     · rw [hms.len]; exact Nat.le_of_lt hLlt
@@ -458,9 +513,9 @@ theorem nstate_nested {fuel : Nat} (hIH : MergeSpec W types fuel) {s0 s2 : AggSt
       rcases hms.keys g hid hg with h | h
       · exact hst2.keys g hid h
       · exact .inr h
-  · show s2.cfg.nestedMerge = true
+  · show s2.cfg.nestedMerge = true ∧ s2.cfg.typeMerge = true
     rw [hst2.cfg]; exact hT.nested
-  · refine ⟨{ ti with exports := amInsert ti.exports n (.instance L) }, ?_, max (m' + 1) (k2 + 1), ?_⟩
+  · refine ⟨{ ti with exports := amInsert ti.exports n (wrapK w L) }, ?_, max (m' + 1) (k2 + 1), ?_⟩
     · rw [setExports_types_eq s2 e _ ti hti2]
       exact listSet_get_self _ _ _ (getElem?_lt hti2)
     · apply unfoldItems_amInsert_present
@@ -469,7 +524,7 @@ theorem nstate_nested {fuel : Nat} (hIH : MergeSpec W types fuel) {s0 s2 : AggSt
         exact unfoldItems_frame hI2.iwf hfr3 hold h1
       · rw [hsome]; rfl
       · exact unfold_frame hI2.iwf hfr3 _ _ _ hnewF (unfoldKind_mono _ (Nat.le_max_right (m' + 1) (k2 + 1)) _ _ hLtree)
-  · exact nd_setF F0 n (.instance R') hT.nd (by simpa [Tree.namesDistinct] using hT2.nd)
+  · exact nd_setF F0 n (wrapT w (.instance R')) hT.nd (by simpa [nd_wrapT, Tree.namesDistinct] using hT2.nd)
 
 include hW hs in
 /-- one iteration of the loop of `merge_interface` on nested interfaces -/
@@ -499,7 +554,7 @@ theorem mergeExport_nstep {fuel : Nat} (hIH : MergeSpec W types fuel) {d : Nat} 
     rw [hget] at hb
     have hmem : (n, tk) ∈ ti.exports := alGet_mem _ _ _ (by rw [← amGet_eq_alGet]; exact hget)
     have hcinv := hT0.ni.ainv.cinv
-    rcases hT0.ni.iwf e ti hti _ hmem with ltk | ⟨t, rfl, hnS, htl⟩ <;> rcases hsk with lk | ⟨sid, rfl, hsrc⟩
+    rcases hT0.ni.iwf e ti hti _ hmem with ltk | ⟨wt, t, rfl, hnS, htl⟩ <;> rcases hsk with lk | ⟨ws, sid, rfl, hsrc⟩
     · -- leaf / leaf
       obtain ⟨r, c', hr, hok, hne⟩ := nstate_keep hW hs hT0 hti hget ltk lk hts htsnd
       have hb' : (do
@@ -531,6 +586,11 @@ theorem mergeExport_nstep {fuel : Nat} (hIH : MergeSpec W types fuel) {d : Nat} 
         cases tk with
         | func _ => exact hb
         | value _ => exact hb
+        | type ty =>
+          cases ty with
+          | func _ => exact hb
+          | value _ => exact hb
+          | _ => cases ltk
         | _ => cases ltk
       clear hb
       simp only [bind_ok, hr, Except.ok.injEq, Prod.mk.injEq] at hb'
@@ -556,41 +616,86 @@ theorem mergeExport_nstep {fuel : Nat} (hIH : MergeSpec W types fuel) {d : Nat} 
         obtain ⟨_, _, ⟨rfl, rfl⟩, _, _, hq, _⟩ := hb'
         rw [withCtx_ok, hm'] at hq
         cases hq
-    · -- target leaf, source instance: the kinds cannot be related
+    · -- target leaf, source instance / type of interface: the kinds cannot be related
       exfalso
-      obtain ⟨⟨m1, h1⟩, _⟩ := chk_mismatch s0 hcinv types s0.agg.types (.instance sid) tk (.inr ⟨⟨sid, rfl⟩, ltk⟩)
-      obtain ⟨_, ⟨m2, h2⟩⟩ := chk_mismatch s0 hcinv s0.agg.types types tk (.instance sid) (.inl ⟨ltk, sid, rfl⟩)
-      cases tk with
-      | func _ =>
-        simp only [run_bind, h1, run_getAgg, withCtx, h2] at hb
-        cases hb
-      | value _ =>
-        simp only [run_bind, h1, run_getAgg, withCtx, h2] at hb
-        cases hb
-      | _ => cases ltk
-    · -- target instance, source leaf
+      obtain ⟨⟨m1, h1⟩, _⟩ := chk_mismatch s0 hcinv types s0.agg.types (wrapK ws sid) tk
+        (innerFalls_wrap_leaf ltk ws sid) (.inl (wrapK_not_leaf ws sid))
+      obtain ⟨_, ⟨m2, h2⟩⟩ := chk_mismatch s0 hcinv s0.agg.types types tk (wrapK ws sid)
+        (innerFalls_leaf_wrap ltk ws sid) (.inr (wrapK_not_leaf ws sid))
+      cases ws <;> simp only [wrapK] at hb h1 h2 <;>
+        (cases tk with
+          | func _ => simp only [run_bind, h1, run_getAgg, withCtx, h2] at hb; cases hb
+          | value _ => simp only [run_bind, h1, run_getAgg, withCtx, h2] at hb; cases hb
+          | type ty =>
+            cases ty with
+            | func _ => simp only [run_bind, h1, run_getAgg, withCtx, h2] at hb; cases hb
+            | value _ => simp only [run_bind, h1, run_getAgg, withCtx, h2] at hb; cases hb
+            | _ => cases ltk
+          | _ => cases ltk)
+    · -- target instance / type of interface, source leaf
       exfalso
-      obtain ⟨⟨m1, h1⟩, _⟩ := chk_mismatch s0 hcinv types s0.agg.types sk (.instance t) (.inl ⟨lk, t, rfl⟩)
-      obtain ⟨_, ⟨m2, h2⟩⟩ := chk_mismatch s0 hcinv s0.agg.types types (.instance t) sk (.inr ⟨⟨t, rfl⟩, lk⟩)
-      cases sk with
-      | func _ =>
-        simp only [run_bind, h1, run_getAgg, withCtx, h2] at hb
-        cases hb
-      | value _ =>
-        simp only [run_bind, h1, run_getAgg, withCtx, h2] at hb
-        cases hb
-      | _ => cases lk
-    · -- both instances: merge on a copy
+      obtain ⟨⟨m1, h1⟩, _⟩ := chk_mismatch s0 hcinv types s0.agg.types sk (wrapK wt t)
+        (innerFalls_leaf_wrap lk wt t) (.inr (wrapK_not_leaf wt t))
+      obtain ⟨_, ⟨m2, h2⟩⟩ := chk_mismatch s0 hcinv s0.agg.types types (wrapK wt t) sk
+        (innerFalls_wrap_leaf lk wt t) (.inl (wrapK_not_leaf wt t))
+      cases wt <;> simp only [wrapK] at hb h1 h2 <;>
+        (cases sk with
+          | func _ => simp only [run_bind, h1, run_getAgg, withCtx, h2] at hb; cases hb
+          | value _ => simp only [run_bind, h1, run_getAgg, withCtx, h2] at hb; cases hb
+          | type ty =>
+            cases ty with
+            | func _ => simp only [run_bind, h1, run_getAgg, withCtx, h2] at hb; cases hb
+            | value _ => simp only [run_bind, h1, run_getAgg, withCtx, h2] at hb; cases hb
+            | _ => cases lk
+          | _ => cases lk)
+    · -- both nested kinds
       obtain ⟨copy, hcopy⟩ : ∃ copy, s0.agg.types.interfaces[t]? = some copy :=
         ⟨s0.agg.types.interfaces[t], by simp [List.getElem?_eq_getElem htl]⟩
-      simp only [hT0.nested, ↓reduceIte, hcopy, bind_ok, run_pure, run_modifyTypes, Except.ok.injEq, Prod.mk.injEq,
-        true_and] at hb
-      obtain ⟨_, _, ⟨rfl, rfl⟩, _, _, rfl, _, s2, hmg, _, _, rfl, _, _, ⟨rfl, rfl⟩, hb⟩ := hb
-      simp only [Bool.not_true, Bool.false_eq_true, ↓reduceIte, run_pure, Except.ok.injEq, Prod.mk.injEq, true_and] at hb
-      subst hb
-      rw [withCtx_ok] at hmg
-      obtain ⟨hm1, tf, r, hf, hmeet, hT2⟩ := nstate_nested hIH hT0 hti hget hsrc hts htsnd hcopy hmg
-      exact ⟨hm1, .inl ⟨tf, r, hf, hmeet, hT2⟩⟩
+      cases wt with
+      | false =>
+        cases ws with
+        | false =>
+          -- both instances: merge on a copy
+          simp only [wrapK, hT0.nested.1, ↓reduceIte, hcopy, bind_ok, run_pure, run_modifyTypes, Except.ok.injEq,
+            Prod.mk.injEq, true_and] at hb
+          obtain ⟨_, _, ⟨rfl, rfl⟩, _, _, rfl, _, s2, hmg, _, _, rfl, _, _, ⟨rfl, rfl⟩, hb⟩ := hb
+          simp only [Bool.not_true, Bool.false_eq_true, ↓reduceIte, run_pure, Except.ok.injEq, Prod.mk.injEq,
+            true_and] at hb
+          subst hb
+          rw [withCtx_ok] at hmg
+          obtain ⟨hm1, tf, r, hf, hmeet, hT2⟩ := nstate_nested (w := false) hIH hT0 hti hget hsrc hts htsnd hcopy hmg
+          exact ⟨hm1, .inl ⟨tf, r, hf, hmeet, hT2⟩⟩
+        | true =>
+          exfalso
+          obtain ⟨⟨m1, h1⟩, _⟩ := chk_mismatch s0 hcinv types s0.agg.types (wrapK true sid) (wrapK false t) rfl
+            (.inl (wrapK_not_leaf true sid))
+          obtain ⟨_, ⟨m2, h2⟩⟩ := chk_mismatch s0 hcinv s0.agg.types types (wrapK false t) (wrapK true sid) rfl
+            (.inl (wrapK_not_leaf false t))
+          simp only [wrapK] at hb h1 h2
+          simp only [run_bind, h1, run_getAgg, withCtx, h2] at hb
+          cases hb
+      | true =>
+        cases ws with
+        | false =>
+          exfalso
+          obtain ⟨⟨m1, h1⟩, _⟩ := chk_mismatch s0 hcinv types s0.agg.types (wrapK false sid) (wrapK true t) rfl
+            (.inl (wrapK_not_leaf false sid))
+          obtain ⟨_, ⟨m2, h2⟩⟩ := chk_mismatch s0 hcinv s0.agg.types types (wrapK true t) (wrapK false sid) rfl
+            (.inl (wrapK_not_leaf true t))
+          simp only [wrapK] at hb h1 h2
+          simp only [run_bind, h1, run_getAgg, withCtx, h2] at hb
+          cases hb
+        | true =>
+          -- both `type` exports of interface type: merge on a copy
+          simp only [wrapK, hT0.nested.2, ↓reduceIte, hcopy, bind_ok, run_pure, run_modifyTypes, Except.ok.injEq,
+            Prod.mk.injEq, true_and] at hb
+          obtain ⟨_, _, ⟨rfl, rfl⟩, _, _, rfl, _, s2, hmg, _, _, rfl, _, _, ⟨rfl, rfl⟩, hb⟩ := hb
+          simp only [Bool.not_true, Bool.false_eq_true, ↓reduceIte, run_pure, Except.ok.injEq, Prod.mk.injEq,
+            true_and] at hb
+          subst hb
+          rw [withCtx_ok] at hmg
+          obtain ⟨hm1, tf, r, hf, hmeet, hT2⟩ := nstate_nested (w := true) hIH hT0 hti hget hsrc hts htsnd hcopy hmg
+          exact ⟨hm1, .inl ⟨tf, r, hf, hmeet, hT2⟩⟩
 
 include hW hs in
 /-- **`merge_interface` on nested interfaces**: the merged target unfolds to the specification's
